@@ -1,4 +1,5 @@
-import BV.Lemmas.LedgerEntry
+import BV.Lemmas.LedgerFlags
+import BV.Lemmas.LedgerSpec
 /-!
 # C09 — every block obtained from a plugged-in allocator is returned to it exactly once
 
@@ -146,5 +147,319 @@ theorem replace_frees_old (w : W) (hw : Inv w) (s : Slot) (hs : isGrowthSlot s =
   refine ⟨hmem, hslot, freed_not_live hmem hw1.bad, ?_⟩
   obtain ⟨suf, hsuf⟩ := acts_log_prefix (w.acts (growthSite w.m8 s)) later
   exact freed_not_live (via := w.m8) (by rw [hsuf]; exact List.mem_append_left _ hmem) hw2.bad
+
+/-! ## `entry_point_releases_all` — one theorem per entry point
+
+`body` is an ARBITRARY list of body calls (`compress_stream` in any mode incl. failed calls and calls
+that grow any field, `take_output`, `set_custom_dictionary`), so early destruction (any prefix of a
+longer history) and error returns (a body that stops anywhere) are covered.  The statements are about
+`Flags.allTrue`; `tree_flags` says that this is the tree the build was generated from, and the
+corollary `…_current` restates the most exposed ones for `Flags.current`. -/
+
+/-- what "releases all" means: the ledger is clean and nothing is live -/
+def ReleasesAll (w : W) : Prop := (judge w.log).clean = true ∧ (judge w.log).live = []
+
+macro "ep_slots" : tactic =>
+  `(tactic| (intro s; cases s <;> first | (left; intro b; cases b <;> rfl) | (right; exact ⟨rfl, rfl, rfl⟩)))
+
+/-- Rust streaming instance: `new`, any history, `BrotliEncoderDestroyInstance` -/
+theorem entry_point_releases_all_stream (m8 q : Nat) (body : List Op) (hb : ∀ op ∈ body, op.isBody = true)
+    (w : W) (h : run Flags.allTrue (W.init m8 q) (epStream body) = .ok w) : ReleasesAll w := by
+  have h' : run Flags.allTrue (W.init m8 q) ([.create false] ++ body ++ [.cleanup]) = .ok w := by
+    simpa [epStream] using h
+  exact ep_releases allTrue_sitesOk m8 q _ body _ hb (by ep_slots) h'
+
+/-- C ABI: `BrotliEncoderCreateInstance` with callbacks, any history, `BrotliEncoderDestroyInstance`
+    (the state block itself included) -/
+theorem entry_point_releases_all_ffi (m8 q : Nat) (body : List Op) (hb : ∀ op ∈ body, op.isBody = true)
+    (w : W) (h : run Flags.allTrue (W.init m8 q) (epFfi body) = .ok w) : ReleasesAll w := by
+  have h' : run Flags.allTrue (W.init m8 q) ([.create true] ++ body ++ [.ffiDestroy]) = .ok w := by
+    simpa [epFfi] using h
+  exact ep_releases allTrue_sitesOk m8 q _ body _ hb (by ep_slots) h'
+
+/-- `CompressorWriterCustomIo`: any writes / flushes / failed calls, then `drop` (also after `into_inner`
+    took the output) -/
+theorem entry_point_releases_all_writer (m8 q : Nat) (body : List Op) (hb : ∀ op ∈ body, op.isBody = true)
+    (w : W) (h : run Flags.allTrue (W.init m8 q) (epWriter Flags.allTrue body) = .ok w) : ReleasesAll w := by
+  have h' : run Flags.allTrue (W.init m8 q) ([.create false] ++ body ++ [.cleanup]) = .ok w := by
+    simpa [epWriter, condCleanup, Flags.allTrue] using h
+  exact ep_releases allTrue_sitesOk m8 q _ body _ hb (by ep_slots) h'
+
+/-- `CompressorReaderCustomIo`: any reads incl. errors of the wrapped reader, then `StateWrapper::drop` -/
+theorem entry_point_releases_all_reader (m8 q : Nat) (body : List Op) (hb : ∀ op ∈ body, op.isBody = true)
+    (w : W) (h : run Flags.allTrue (W.init m8 q) (epReader Flags.allTrue body) = .ok w) : ReleasesAll w := by
+  have h' : run Flags.allTrue (W.init m8 q) ([.create false] ++ body ++ [.cleanup]) = .ok w := by
+    simpa [epReader, condCleanup, Flags.allTrue] using h
+  exact ep_releases allTrue_sitesOk m8 q _ body _ hb (by ep_slots) h'
+
+/-- `BrotliCompressCustomIoCustomDict` (the copy function): normal exit, encoder failure, read error and
+    the early return on a write error -/
+theorem entry_point_releases_all_copy (m8 q : Nat) (body : List Op) (hb : ∀ op ∈ body, op.isBody = true)
+    (w : W) (h : run Flags.allTrue (W.init m8 q) (epCopy Flags.allTrue body) = .ok w) : ReleasesAll w := by
+  have h' : run Flags.allTrue (W.init m8 q) ([.create false] ++ body ++ [.cleanup]) = .ok w := by
+    simpa [epCopy, condCleanup, Flags.allTrue] using h
+  exact ep_releases allTrue_sitesOk m8 q _ body _ hb (by ep_slots) h'
+
+/-- Rust one-shot (`encoder_compress`), with and without the quality-10 hasher made up front; `other` is
+    the identity of the spare allocator -/
+theorem entry_point_releases_all_oneshot (m8 q other : Nat) (q10 : Bool) (lens : List Nat) (body : List Op)
+    (hb : ∀ op ∈ body, op.isBody = true) (w : W)
+    (h : run Flags.allTrue (W.init m8 q) (epOneshot Flags.allTrue q10 other lens body) = .ok w) : ReleasesAll w := by
+  cases q10
+  · have h' : run Flags.allTrue (W.init m8 q) ([.create false] ++ body ++ [.cleanup]) = .ok w := by
+      simpa [epOneshot, condCleanup, Flags.allTrue] using h
+    exact ep_releases allTrue_sitesOk m8 q _ body _ hb (by ep_slots) h'
+  · have h' : run Flags.allTrue (W.init m8 q) ([.create false, .oneshotHasher other lens] ++ body ++ [.cleanup]) = .ok w := by
+      simpa [epOneshot, condCleanup, Flags.allTrue] using h
+    exact ep_releases allTrue_sitesOk m8 q _ body _ hb (by ep_slots) h'
+
+/-- `help_brotli_encoder_compress_single` (1-thread branch of the C-ABI multi call) -/
+theorem entry_point_releases_all_ffi_single (m8 q : Nat) (body : List Op) (hb : ∀ op ∈ body, op.isBody = true)
+    (w : W) (h : run Flags.allTrue (W.init m8 q) (epFfiSingle Flags.allTrue body) = .ok w) : ReleasesAll w := by
+  have h' : run Flags.allTrue (W.init m8 q) ([.create false] ++ body ++ [.cleanup]) = .ok w := by
+    simpa [epFfiSingle, condCleanup, Flags.allTrue] using h
+  exact ep_releases allTrue_sitesOk m8 q _ body _ hb (by ep_slots) h'
+
+/-- evaluate the slot flags of the fixed parts of an entry point whose calls have symbolic parameters -/
+macro "ep_slots_sym" : tactic =>
+  `(tactic| (intro s; cases s <;>
+      first
+      | (left; intro b; (cases b <;>
+          simp [flagAfter_cons, flagAfter_nil, opFlag_cleanup, opFlag_freeMem, opFlag_freeInput, Slot.isField]); done)
+      | (right; refine ⟨rfl, ?_, ?_⟩ <;>
+          (simp [flagAfter_cons, flagAfter_nil, opFlag_create, opFlag_allocMem, opFlag_allocInput, opFlag_cleanup,
+            opFlag_freeMem, opFlag_freeInput, opFlag_mkExt, opFlag_setDictExt_ext, Slot.isField]
+           try (first | exact opFlag_setDict _ _ _ rfl _ _ | exact opFlag_setDictExt _ _ rfl _ _)))))
+
+/-- one allocator's share of a multi-threaded call (`CompressMulti` / `CompressMultiSlice` / work pool,
+    Rust and C ABI): `compress_part` in either arm, without a dictionary (job 0), with a dictionary built
+    in place, or with the pre-computed hasher cloned for this job by the coordinator — kept, or destroyed
+    and rebuilt when the dictionary is truncated; optionally carrying `CompressMultiSlice`'s input copy.
+    Hypothesis of the model: no job panics (the join-failure / poisoned-lock returns are not modelled). -/
+theorem entry_point_releases_all_job (m8 q : Nat) (slice ok : Bool) (body : List Op)
+    (hb : ∀ op ∈ body, op.isBody = true) (w : W) :
+    -- job without dictionary
+    (run Flags.allTrue (W.init m8 q) (epJob Flags.allTrue slice [] none body ok) = .ok w → ReleasesAll w) ∧
+    -- dictionary, hasher built by the job
+    (∀ ring fresh, run Flags.allTrue (W.init m8 q) (epJob Flags.allTrue slice [] (some (ring, fresh)) body ok) = .ok w →
+      ReleasesAll w) ∧
+    -- dictionary + pre-computed hasher
+    (∀ x xs ring fresh, run Flags.allTrue (W.init m8 q) (epJob Flags.allTrue slice (x :: xs) (some (ring, fresh)) body ok) = .ok w →
+      ReleasesAll w) := by
+  refine ⟨?_, ?_, ?_⟩
+  · intro h
+    cases slice <;> cases ok
+    all_goals
+      first
+      | (have h' : run Flags.allTrue (W.init m8 q) ([.allocMem, .create false] ++ body ++ [.cleanup, .freeMem]) = .ok w := by
+           simpa [epJob, condCleanup, Flags.allTrue] using h
+         exact ep_releases allTrue_sitesOk m8 q _ body _ hb (by ep_slots_sym) h')
+      | (have h' : run Flags.allTrue (W.init m8 q) ([.allocInput, .allocMem, .create false] ++ body ++ [.cleanup, .freeMem, .freeInput]) = .ok w := by
+           simpa [epJob, condCleanup, Flags.allTrue] using h
+         exact ep_releases allTrue_sitesOk m8 q _ body _ hb (by ep_slots_sym) h')
+  · intro ring fresh h
+    cases slice <;> cases ok
+    all_goals
+      first
+      | (have h' : run Flags.allTrue (W.init m8 q) ([.allocMem, .create false, .setDict ring fresh] ++ body ++ [.cleanup, .freeMem]) = .ok w := by
+           simpa [epJob, condCleanup, Flags.allTrue] using h
+         exact ep_releases allTrue_sitesOk m8 q _ body _ hb (by ep_slots_sym) h')
+      | (have h' : run Flags.allTrue (W.init m8 q) ([.allocInput, .allocMem, .create false, .setDict ring fresh] ++ body ++ [.cleanup, .freeMem, .freeInput]) = .ok w := by
+           simpa [epJob, condCleanup, Flags.allTrue] using h
+         exact ep_releases allTrue_sitesOk m8 q _ body _ hb (by ep_slots_sym) h')
+  · intro x xs ring fresh h
+    cases slice <;> cases ok
+    all_goals
+      first
+      | (have h' : run Flags.allTrue (W.init m8 q) ([.mkExt (x :: xs), .allocMem, .create false, .setDictExt ring fresh] ++ body ++ [.cleanup, .freeMem]) = .ok w := by
+           simpa [epJob, condCleanup, Flags.allTrue] using h
+         exact ep_releases allTrue_sitesOk m8 q _ body _ hb (by ep_slots_sym) h')
+      | (have h' : run Flags.allTrue (W.init m8 q) ([.allocInput, .mkExt (x :: xs), .allocMem, .create false, .setDictExt ring fresh] ++ body ++ [.cleanup, .freeMem, .freeInput]) = .ok w := by
+           simpa [epJob, condCleanup, Flags.allTrue] using h
+         exact ep_releases allTrue_sitesOk m8 q _ body _ hb (by ep_slots_sym) h')
+
+/-! ## `fast_path_buffers_balanced` -/
+
+theorem fastPrologue_owned (w : W) (kBlock buf : Nat) : ∀ a ∈ fastPrologueActs w kBlock buf, a.owned w.m8 := by
+  intro a ha
+  unfold fastPrologueActs at ha
+  split at ha
+  · simp at ha
+  · simp only [List.mem_append] at ha
+    rcases ha with ha | ha
+    · split at ha
+      · simp at ha; rcases ha with rfl | rfl <;> simp [Act.owned]
+      · simp at ha
+    · split at ha
+      · simp at ha; rcases ha with rfl | rfl <;> simp [Act.owned]
+      · split at ha
+        · simp at ha
+        · simp at ha; rcases ha with rfl | rfl <;> simp [Act.owned]
+
+theorem fastEpilogue_owned (w : W) (m8 : Nat) (b : Bool) : ∀ a ∈ fastEpilogueActs w b, a.owned m8 := by
+  intro a ha
+  unfold fastEpilogueActs at ha
+  split at ha
+  · simp at ha; rcases ha with rfl | rfl | rfl | rfl <;> simp [Act.owned]
+  · simp at ha; rcases ha with rfl | rfl <;> simp [Act.owned]
+
+/-- the two-pass buffers are either both absent or one block each -/
+def BufShape (e : Enc) : Prop := (e.cbuf = [] ∧ e.lbuf = []) ∨ (∃ c l, e.cbuf = [c] ∧ e.lbuf = [l])
+
+/-- **fast_path_buffers_balanced**: the prologue / epilogue of `compress_stream_fast` (quality 1) —
+    allocate the two block-sized buffers into the fields when the input is large, alias the fields into
+    locals, or allocate short temporaries; afterwards put the locals back or free them — keeps the ledger
+    invariant, loses nothing, leaves no local behind, keeps the fields' shape, gives back exactly the
+    blocks it borrowed from the fields, and in the short-input case frees both temporaries -/
+theorem fast_path_buffers_balanced (w : W) (hw : Inv w) (kBlock buf : Nat) (ht : w.enc.tmp = [])
+    (ht2 : w.enc.tmp2 = []) (hshape : BufShape w.enc) :
+    Inv (fastPath w kBlock buf) ∧ (fastPath w kBlock buf).lost = w.lost ∧
+    (fastPath w kBlock buf).enc.tmp = [] ∧ (fastPath w kBlock buf).enc.tmp2 = [] ∧
+    BufShape (fastPath w kBlock buf).enc ∧
+    (w.enc.cbuf ≠ [] → (fastPath w kBlock buf).enc = w.enc ∧ (fastPath w kBlock buf).log = w.log) ∧
+    (w.enc.cbuf = [] → buf ≠ kBlock → (fastPath w kBlock buf).enc = w.enc) := by
+  have hinv : Inv (fastPath w kBlock buf) := by
+    unfold fastPath
+    apply Inv.acts
+    · exact hw.acts _ (fastPrologue_owned w kBlock buf)
+    · exact fastEpilogue_owned _ _ _
+  refine ⟨hinv, ?_⟩
+  by_cases hq : w.q = 1
+  · rcases hshape with ⟨hc, hl⟩ | ⟨c, l, hc, hl⟩
+    · by_cases hk : buf = kBlock
+      · -- large input: the fields are filled, aliased, and restored
+        subst hk
+        simp [fastPath, fastPrologueActs, fastEpilogueActs, hq, hc, hl, ht, ht2, W.acts, W.act, Enc.get, Enc.set,
+          fresh, BufShape]
+      · by_cases h0 : buf = 0
+        · subst h0
+          have hk' : ¬ (0 = kBlock) := hk
+          simp [fastPath, fastPrologueActs, fastEpilogueActs, hq, hc, hl, ht, ht2, hk', W.acts, W.act, Enc.get,
+            Enc.set, fresh, BufShape]
+          cases hE : w.enc; simp_all
+        · simp [fastPath, fastPrologueActs, fastEpilogueActs, hq, hc, hl, ht, ht2, hk, h0, W.acts, W.act, Enc.get,
+            Enc.set, fresh, BufShape]
+          cases hE : w.enc; simp_all
+    · simp [fastPath, fastPrologueActs, fastEpilogueActs, hq, hc, hl, ht, ht2, W.acts, W.act, Enc.get, Enc.set,
+        fresh, BufShape]
+      cases hE : w.enc; simp_all
+  · -- other qualities: nothing happens (`command_buf`, `literal_buf` stay default and their free is a no-op)
+    simp [fastPath, fastPrologueActs, fastEpilogueActs, hq, ht, ht2, W.acts, W.act, Enc.get, Enc.set]
+    refine ⟨hshape, ?_, ?_⟩ <;> intros <;> (cases hE : w.enc; simp_all)
+
+/-! ## What `ReleasesAll` means (the spec, in event counts) -/
+
+/-- **exactly_once**: if the judge finds a log clean and balanced then, for EVERY block identity, the
+    number of times it was handed out is at most one, and it equals both the number of `free` calls
+    naming it and the number of those that went through the allocator that produced it: each allocated
+    block was freed exactly once, through its own allocator; nothing else was ever freed -/
+theorem exactly_once (log : List Ev) (hc : (judge log).clean = true) (hl : (judge log).live = []) (b : BlockId) :
+    nAlloc log b ≤ 1 ∧ nFree log b = nAlloc log b ∧ nFreeOwn log b = nAlloc log b := by
+  have h := counts_judge log ((clean_iff_bad _).mp hc)
+  have ha := h.alloc b
+  have hf := h.free b
+  have ho := h.own b
+  rw [hl] at hf
+  by_cases hs : b ∈ (judge log).seen
+  · simp [hs] at ha hf
+    omega
+  · simp [hs] at ha hf
+    omega
+
+/-- every entry-point theorem above, read through `exactly_once` -/
+theorem releasesAll_exactly_once (w : W) (h : ReleasesAll w) (b : BlockId) :
+    nAlloc w.log b ≤ 1 ∧ nFree w.log b = nAlloc w.log b ∧ nFreeOwn w.log b = nAlloc w.log b :=
+  exactly_once w.log h.1 h.2 b
+
+/-! ## The current tree -/
+
+/-- the C-ABI destroy and the 1-thread multi helper release everything on the tree this build was
+    generated from (they did not before the `fix:` commits; see the counterexamples below) -/
+theorem entry_point_releases_all_ffi_current (m8 q : Nat) (body : List Op) (hb : ∀ op ∈ body, op.isBody = true)
+    (w : W) (h : run Flags.current (W.init m8 q) (epFfi body) = .ok w) : ReleasesAll w := by
+  rw [tree_flags] at h
+  exact entry_point_releases_all_ffi m8 q body hb w h
+
+theorem entry_point_releases_all_ffi_single_current (m8 q : Nat) (body : List Op)
+    (hb : ∀ op ∈ body, op.isBody = true) (w : W)
+    (h : run Flags.current (W.init m8 q) (epFfiSingle Flags.current body) = .ok w) : ReleasesAll w := by
+  rw [tree_flags] at h
+  exact entry_point_releases_all_ffi_single m8 q body hb w h
+
+theorem entry_point_releases_all_oneshot_current (m8 q other : Nat) (q10 : Bool) (lens : List Nat) (body : List Op)
+    (hb : ∀ op ∈ body, op.isBody = true) (w : W)
+    (h : run Flags.current (W.init m8 q) (epOneshot Flags.current q10 other lens body) = .ok w) : ReleasesAll w := by
+  rw [tree_flags] at h
+  exact entry_point_releases_all_oneshot m8 q other q10 lens body hb w h
+
+/-! ## Non-vacuity: the hypotheses are met by concrete, non-trivial histories -/
+
+/-- a history that grows every field of a quality-5 instance, replaces storage and the command array,
+    sets a dictionary on the live instance, and has scoped temporaries -/
+def sampleBody : List Op :=
+  [.setDict (some 500) [16384, 262144],
+   .cs { storage := some 200527, commands := some 49169, ring := some 8454153, temps := 17 },
+   .cs { storage := some 306313, commands := some 60000, temps := 3 },
+   .setDict (some 9000000) [16384, 262144],
+   .cs {}]
+
+def sampleBodyQ1 : List Op :=
+  [.cs { table := some 131072, q1bufs := some 131072 }, .cs { storage := some 262647, table := some 262144, temps := 2 }]
+
+example : (∀ op ∈ sampleBody, op.isBody = true) ∧ (∀ op ∈ sampleBodyQ1, op.isBody = true) := by decide
+
+/-- (live blocks at the end, allocations, frees) of an accepted history -/
+def statsAfter (fl : Flags) (m8 q : Nat) (ops : List Op) : Option (Nat × Nat × Nat) :=
+  match run fl (W.init m8 q) ops with
+  | .ok w => some ((judge w.log).live.length, (judge w.log).allocs, (judge w.log).frees)
+  | .error _ => none
+
+example : statsAfter Flags.allTrue 7 5 (epStream sampleBody) = some (0, 31, 31) := by decide +kernel
+example : statsAfter Flags.allTrue 7 5 (epFfi sampleBody) = some (0, 32, 32) := by decide +kernel
+example : statsAfter Flags.allTrue 3 1 (epWriter Flags.allTrue sampleBodyQ1) = some (0, 7, 7) := by decide +kernel
+example : statsAfter Flags.allTrue 3 9 (epOneshot Flags.allTrue true 4 [1, 2] sampleBody) = some (0, 33, 33) := by decide +kernel
+example : statsAfter Flags.allTrue 2 5 (epJob Flags.allTrue true [16384, 262144] (some (some 100, [])) sampleBody true) =
+    some (0, 36, 36) := by decide +kernel
+example : statsAfter Flags.allTrue 2 5 (epJob Flags.allTrue false [16384, 262144] (some (some 100, [5, 6])) sampleBody false) =
+    some (0, 37, 37) := by decide +kernel
+/-- the guards are real: storage never shrinks, a hasher is not set up twice, no hash table at quality 5 -/
+example : run Flags.allTrue (W.init 0 5) [.create false, .cs { storage := some 10 }, .cs { storage := some 10 }] =
+    .error "storage-not-grown" := rfl
+example : run Flags.allTrue (W.init 0 5) [.create false, .cs { hasher := [1] }, .cs { hasher := [1] }] =
+    .error "hasher-setup" := rfl
+example : run Flags.allTrue (W.init 0 5) [.create false, .cs { table := some 4096 }] = .error "table" := rfl
+
+/-! ## The defects: what each site flag is needed for (counterexamples on the model, replayed on the
+real code by `bvh ledger d9` before the `fix:` commits) -/
+
+def owedAfter (fl : Flags) (q : Nat) (ops : List Op) : Nat × Nat :=
+  match run fl (W.init 0 q) ops with
+  | .ok w => ((judge w.log).live.length, (judge w.log).foreign)
+  | .error _ => (0, 0)
+
+/-- D9: without the cleanup call the C-ABI destroy leaves the five blocks of a quality-5 instance live -/
+theorem ffi_destroy_needs_cleanup :
+    owedAfter { Flags.allTrue with ffiDestroyCleanup := false } 5
+      (epFfi [.cs { storage := some 200527, commands := some 49169, ring := some 8454153, hasher := [16384, 262144] }]) = (5, 0) := rfl
+
+/-- D9, second site: `help_brotli_encoder_compress_single` -/
+theorem ffi_single_needs_cleanup :
+    owedAfter { Flags.allTrue with ffiSingleCleanup := false } 5
+      (epFfiSingle { Flags.allTrue with ffiSingleCleanup := false }
+        [.cs { storage := some 200527, commands := some 49169, ring := some 8454153, hasher := [16384, 262144] }]) = (5, 0) := rfl
+
+/-- quality-10 one-shot: a hasher taken from the spare allocator is freed through the caller's -/
+theorem oneshot_q10_needs_own_allocator :
+    owedAfter { Flags.allTrue with oneshotHasherOwn := false } 9
+      (epOneshot { Flags.allTrue with oneshotHasherOwn := false } true 1 [1, 2] [.cs { storage := some 100 }]) = (0, 2) := rfl
+
+/-- `set_custom_dictionary` on an instance that already has a hasher -/
+theorem set_dict_needs_free :
+    owedAfter { Flags.allTrue with setDictFrees := false } 5
+      (epStream [.setDict (some 500) [1, 2], .setDict (some 900) [1, 2]]) = (2, 0) := rfl
+
+/-- writer `Drop` that skips the destroy (the regression catalogue's mutant) -/
+theorem writer_drop_needs_destroy :
+    owedAfter Flags.allTrue 5 (epWriter { Flags.allTrue with writerDropDestroys := false } [.cs { storage := some 100 }]) = (1, 0) := rfl
 
 end BV.Props.C09
